@@ -78,6 +78,7 @@ func (f *Frame) resLookup(key string, i int) (Val, bool) {
 
 type hdrInfo struct {
 	phis map[*ssa.Phi]Term
+	st   *State // state at the header of the current symbolic iteration (after the havoc)
 }
 
 func (c *Ctx) newFrame(fn *ssa.Function, parent *Frame) *Frame {
@@ -259,6 +260,16 @@ func (f *Frame) selectorsOf(in ssa.Instruction) []string {
 		if _, ok := in.(*ssa.Go); ok {
 			for i := range sels {
 				sels[i] = "go-" + sels[i]
+			}
+		}
+	case *ssa.UnOp:
+		if in.Op == token.ARROW {
+			sels = append(sels, "recv")
+			switch ch := in.X.(type) {
+			case *ssa.Parameter:
+				sels = append(sels, "recv:"+ch.Name())
+			case *ssa.FreeVar:
+				sels = append(sels, "recv:"+ch.Name())
 			}
 		}
 	case *ssa.Send:
@@ -1138,7 +1149,7 @@ func (f *Frame) enterLoop(b *ssa.BasicBlock, ord int, st *State, reach Term) int
 			}
 		}
 	} else {
-		bases := f.loopBases(f.loopBody[b])
+		bases := f.loopBases(f.loopBody[b], pre, comps)
 		heapAll := comps["*heap"]
 		delete(comps, "*heap")
 		if heapAll {
@@ -1173,7 +1184,7 @@ func (f *Frame) enterLoop(b *ssa.BasicBlock, ord int, st *State, reach Term) int
 		c.assume(app(SBool, ">=", na, st.alloc), false)
 		st.alloc = na
 	}
-	hi := &hdrInfo{phis: map[*ssa.Phi]Term{}}
+	hi := &hdrInfo{phis: map[*ssa.Phi]Term{}, st: st.clone()}
 	f.hdrState[b] = hi
 	for phi := range entry {
 		v := c.constNamed(f.name(phi.Name()), c.sortOf(phi.Type()))
@@ -1358,7 +1369,7 @@ func (f *Frame) backEdge(p, h *ssa.BasicBlock, st *State, cond Term) {
 		c.oblige("loop-continue", name, cond, t, f.pos(p.Instrs[len(p.Instrs)-1]))
 	}
 	if lc.Decreases != nil {
-		envH := f.envAtHeader(st, h, f.hdrState[h].phis)
+		envH := f.envAtHeader(f.hdrState[h].st, h, f.hdrState[h].phis)
 		envB := f.envAtHeader(st, h, vals)
 		func() {
 			defer func() {
@@ -1431,6 +1442,7 @@ func (f *Frame) envAt(st *State, b *ssa.BasicBlock, idx int) *Env {
 	}
 	env.local = func(name string, s *State) (Val, bool) { return f.lookupLocal(name, b, idx, s, nil) }
 	env.shadow = f.paramNames()
+	env.atLoop = f.envAtLoop
 	env.res = f.resLookup
 	return env
 }
@@ -1448,8 +1460,41 @@ func (f *Frame) envAtHeader(st *State, h *ssa.BasicBlock, phis map[*ssa.Phi]Term
 		nphi = i + 1
 	}
 	env.local = func(name string, s *State) (Val, bool) { return f.lookupLocal(name, h, nphi, s, phis) }
+	env.res = f.resLookup
 	env.shadow = f.paramNames()
+	env.atLoop = f.envAtLoop
 	return env
+}
+
+// allocOfVar finds the cell of a source variable that is not kept in registers.
+func (f *Frame) allocOfVar(obj types.Object) *ssa.Alloc {
+	if obj == nil || !obj.Pos().IsValid() {
+		return nil
+	}
+	for _, b := range f.fn.Blocks {
+		for _, in := range b.Instrs {
+			if al, ok := in.(*ssa.Alloc); ok && al.Pos() == obj.Pos() && al.Comment == obj.Name() {
+				return al
+			}
+		}
+	}
+	return nil
+}
+
+// envAtLoop is the environment at the header of loop k in the current symbolic
+// iteration of that loop (used by atloop(k, expr) inside the body, e.g. in the
+// invariant of a nested loop).
+func (f *Frame) envAtLoop(k int) *Env {
+	for h, ord := range f.headers {
+		if ord == k {
+			hi := f.hdrState[h]
+			if hi == nil || hi.st == nil {
+				return nil
+			}
+			return f.envAtHeader(hi.st, h, hi.phis)
+		}
+	}
+	return nil
 }
 
 func (f *Frame) paramNames() map[string]bool {
@@ -1474,6 +1519,13 @@ func (f *Frame) lookupLocal(name string, b *ssa.BasicBlock, idx int, st *State, 
 				if in.Object() != nil && in.Object().Name() == name {
 					if in.IsAddr {
 						l := f.locOf(in.X)
+						return Val{T: c.load(st, l), GT: l.typ}, true
+					}
+					// a variable that lives in a cell (captured by reference or
+					// address-taken): its current value is the cell's content, not
+					// the value it was initialised with
+					if al := f.allocOfVar(in.Object()); al != nil {
+						l := f.locOf(al)
 						return Val{T: c.load(st, l), GT: l.typ}, true
 					}
 					if t, ok := f.vals[in.X]; ok {
